@@ -37,8 +37,27 @@ func runC20(c *Ctx) {
 		}
 		for i := 0; i < named.NumMethods(); i++ {
 			m := named.Method(i)
-			if m.Name() == "Insert" || m.Name() == "Delete" || !m.Exported() {
-				continue // mutators, and unexported helpers (which may legitimately fill a fresh set)
+			if m.Name() == "Insert" || m.Name() == "Delete" {
+				// R20.6: a mutator applies to every element it is given: the loop over its variadic argument is left only
+				// when the elements are exhausted
+				if fn := p.SSA.FuncValue(m); fn != nil && len(fn.Blocks) > 0 && fn.Signature.Variadic() {
+					va := fn.Params[len(fn.Params)-1]
+					nL := 0
+					for _, rl := range rangeLoopsOf(fn) {
+						if core.Unspill(rl.over) != ssa.Value(va) {
+							continue
+						}
+						nL++
+						early, _ := leavesEarly(rl.header)
+						c.R.Check(!early, "R20.6", spec[1]+"."+m.Name()+": the loop over the elements given looks at every element", p.Pos(fn.Pos()),
+							"the loop is left only when the elements are exhausted", "the loop over the variadic argument can be left early (break/return in its body): the elements behind the one that triggers the exit are not inserted / deleted")
+					}
+					c.R.RequireMin("R20.6", spec[1]+"."+m.Name()+": loops over the variadic argument", nL, 1)
+				}
+				continue
+			}
+			if !m.Exported() {
+				continue // unexported helpers (which may legitimately fill a fresh set)
 			}
 			fn := p.SSA.FuncValue(m)
 			if fn == nil || len(fn.Blocks) == 0 {
